@@ -19,6 +19,16 @@ EXTREMES = [0, 1, -1, 2, 7, 8, 255, 256, 65535, 65536, 2**31 - 1, 2**31, 2**32 -
 I64 = [e for e in EXTREMES if -2**63 <= e <= I64MAX]
 
 
+def nesting_limit():
+    """reader::MAX_NESTING (arrays / dictionaries); MAX_BRACKET before the constant existed"""
+    try:
+        src = open(os.path.join(vlib.REPO, 'src', 'reader.rs')).read()
+    except OSError:
+        return 100
+    m = re.search(r'pub const MAX_NESTING: usize = (\d+);', src) or re.search(r'pub const MAX_BRACKET: usize = (\d+);', src)
+    return int(m.group(1)) if m else 100
+
+
 def case(kind, *args):
     return L('case', kind, *args)
 
@@ -519,6 +529,42 @@ def bfrange_array_family():
                     yield head + body + CMAP_TAIL, text, clen
 
 
+def nesting_boundary():
+    """containers nested to the limit of the reader and just around it (and to the limit of string brackets, 100, which the
+    container limit used to be), closed, with and without MAX_BRACKET string brackets inside the innermost container -- the
+    deepest recursion a file can ask for -- as content operand, object-stream member, indirect object, stream dictionary,
+    and behind the longest Length chain.  Run in the release worker on every run and in a DEBUG-profile worker (frames
+    are many times larger there) in the thorough tier; yields (kind, case line)"""
+    lim = nesting_limit()
+    depths = sorted({1, lim - 1, lim, lim + 1, lim + 2, 2 * lim, 66, 84, 99, 100, 101, 120})
+    shapes = [(b'[', b']', 1), (b'<</A', b'>>', 1), (b'[<</K', b'>>]', 2), (b'<</A[', b']>>', 2)]
+    for o, c, per in shapes:
+        for n in depths:
+            k = max(1, n // per)
+            for inner in (b' 1 ', b'(' * 100 + b')' * 100, b'(' * 101 + b')' * 101):
+                nest = o * k + inner + c * k
+                if inner == b' 1 ' or n in (lim - 1, lim, lim + 1, 100):
+                    yield 'content', case('content', XB(nest + b' TJ'))
+                    yield 'objstm', case('objstm', D([('Type', N('ObjStm')), ('N', I(1)), ('First', I(4))]), XB(b'1 0 ' + nest))
+                if inner == b' 1 ' or n in (lim, lim + 1):
+                    yield 'load', case('load', XB(pdf_classic(simple_objs() + [(7, nest)])))
+    for o, c, per in shapes[:2]:
+        for n in (lim - 1, lim, lim + 1, 100):
+            nest = o * n + b'(' * 100 + b')' * 100 + c * n
+            # as a value inside a stream dictionary (the dictionary itself is one more level)
+            yield 'load', case('load', XB(pdf_classic(simple_objs() + [(7, b'<</X ' + nest + b'/Length 1>>stream\nx\nendstream')])))
+            # behind a chain of Length references (every link is a nested read_object)
+            chain = [(i, b'<</Length %d 0 R>>stream\nx\nendstream' % (i + 1)) for i in range(7, 12)]
+            chain.append((12, b'<</X ' + nest + b'/Length 1>>stream\nx\nendstream'))
+            yield 'load', case('load', XB(pdf_classic(simple_objs() + chain)))
+            yield 'incload', case('incload', XB(pdf_classic(simple_objs() + [(7, nest)])))
+    yield 'content', case('content', XB(b'(' * 100 + b')' * 100 + b' Tj'))
+    yield 'content', case('content', XB(b'BI /W 1 /H 1 /BPC 8 /CS /G /DP ' + b'<</A' * (lim - 1) + b'(' * 100 + b')' * 100 + b'>>' * (lim - 1) + b' ID x EI'))
+    yield 'cmap', case('cmap', XB(b'/CIDInit /ProcSet findresource begin 12 dict begin begincmap /CIDSystemInfo ' + b'<</A' * lim + b'(' * 100 + b')' * 100
+                                  + b'>>' * lim + b' def /CMapType 2 def 1 begincodespacerange <00> <ff> endcodespacerange 1 beginbfchar <41> <0041> endbfchar endcmap'),
+                       XB(b'A'))
+
+
 def pdf_with_tounicode(cmap, text, clen):
     """one page whose font has the given ToUnicode CMap (Identity-H for two-byte codes) and whose content shows [text]"""
     hexs = b'<' + text.hex().encode() + b'>'
@@ -622,6 +668,8 @@ def gen_cases(rng, tier):
         add(case('cmap', XB(cm), XB(text)), 'cmap-arrayfamily')
         if not q or i % 3 == 0 or b'<0000> <0002> [<0041> <0042>]' in cm:
             add(case('loadtext', XB(pdf_with_tounicode(cm, text, clen))), 'loadtext-arrayfamily')
+    for k, line in nesting_boundary():
+        add(line, k + '-nestboundary')
     # adversarial whole files
     n = 3000 if q else 20000
     chain = [(i, b'<</Length %d 0 R>>stream\nx\nendstream' % (i + 1)) for i in range(1, n + 1)] + [(n + 1, b'1')]
@@ -685,7 +733,49 @@ SPEC = {
 }
 
 
+def build_debug_worker():
+    """the same harness bin in cargo's default (dev) profile: unoptimised, frames many times larger than in the release
+    build the other cases run in.  Returns (exe | None, log)."""
+    import hashlib
+    exe, log = vlib.build_harness(SPEC['bin'])           # creates the scratch copy of harness/ when VERIF_REPO is set
+    if exe is None:
+        return None, log
+    hd = os.path.join(vlib.ROOT, 'harness')
+    target = vlib.CARGO_TARGET + '-debug'
+    if vlib.REPO != '/repo':
+        tag = hashlib.sha256(vlib.REPO.encode()).hexdigest()[:10]
+        hd = os.path.join(vlib.BUILD, 'harness-' + tag)
+        target = os.path.join(vlib.BUILD, 'cargo-' + tag) + '-debug'
+    with vlib.Lock('cargo-debug'):
+        rc, out = vlib.sh(['cargo', 'build', '--offline', '--bin', SPEC['bin']], 1500, cwd=hd,
+                          env={'CARGO_TARGET_DIR': target, 'CARGO_NET_OFFLINE': 'true'})
+    if rc != 0:
+        return None, out
+    return os.path.join(target, 'debug', SPEC['bin']), out
+
+
+def debug_profile_stage(ctx):
+    """thorough tier: the nesting boundary in a debug-profile isolated worker (2 MiB stack, as a rayon worker or a test
+    thread has): the deepest recursion a file can ask for must fit there too"""
+    exe, log = build_debug_worker()
+    if exe is None:
+        ctx.violation('debugbuild', {'kind': 'harness-build-failed', 'profile': 'dev', 'log': log[-3000:]}, found_input=False)
+        return
+    lines = [l for _, l in nesting_boundary()]
+    outs = vlib.run_lines(exe, lines, timeout=2400, shards=8)
+    bad = [(l, o) for l, o in zip(lines, outs) if vlib.split_impl(o)[1].startswith('FAIL') or ' ||| ' not in o]
+    ctx.notes.append('debug-profile worker: %d nesting-boundary cases, %d failing' % (len(lines), len(bad)))
+    if bad:
+        l, o = min(bad, key=lambda x: len(x[0]))
+        ctx.violation('fail_debug_%d' % ctx.seed, {
+            'kind': 'property-fails-on-implementation', 'property': ctx.prop, 'profile': 'dev (cargo build without --release)',
+            'case': l, 'impl_out': vlib.split_impl(o)[0], 'verdict': vlib.split_impl(o)[1], 'n_failing_cases': len(bad),
+            'replay': 'cd harness && cargo build --offline --bin c04 && echo <case> | <target>/debug/c04'})
+
+
 def run(ctx):
+    if ctx.tier == 'thorough' or os.environ.get('C04_DEBUG_STAGE') == '1':
+        debug_profile_stage(ctx)
     return propcheck.standard_check(ctx, SPEC)
 
 
